@@ -267,3 +267,103 @@ Section Main.
     - apply select_none in E. lia.
   Qed.
 End Main.
+
+(* ---------------------------------------------------------------------------------------------- *)
+(* statements in the form used by props/Properties_C59.v, for every admissible sort *)
+
+Lemma sel_never_stuck srt l : sort_spec srt -> exists r, select_node_to_evict srt l = Ok r.
+Proof. intros Hs. exact (select_ok _ (erase_last_k_spec srt Hs) l). Qed.
+
+Lemma sel_never_noban_or_outbound srt l c : sort_spec srt ->
+  select_node_to_evict srt l = Ok (Some c) ->
+  In c l /\ c_noban c = false /\ c_conn_type c = EVICT_CONN_INBOUND.
+Proof.
+  intros Hs H. destruct (select_some _ (erase_last_k_spec srt Hs) l c H) as (Hin & Hel & _).
+  unfold eligible in Hel. apply andb_true_iff in Hel. destruct Hel as [Hn Hc].
+  split; [exact Hin|]. split; [now destruct (c_noban c) | now apply Z.eqb_eq].
+Qed.
+
+Lemma sel_protected_by_rule srt l c : sort_spec srt ->
+  (surely_last_k cmp_netgroup 4 c (filter eligible l) = true \/
+   surely_last_k cmp_rev_min_ping 8 c (filter eligible l) = true \/
+   surely_last_k cmp_tx_time 4 c (filter eligible l) = true \/
+   surely_last_k cmp_block_time 4 c (filter eligible l) = true) ->
+  select_node_to_evict srt l <> Ok (Some c).
+Proof.
+  intros Hs Hp H. destruct (select_some _ (erase_last_k_spec srt Hs) l c H) as (_ & _ & Hr & _).
+  unfold protected_by_rule in Hr. destruct Hp as [Hp|[Hp|[Hp|Hp]]]; rewrite Hp in Hr;
+    repeat rewrite orb_true_r in Hr; discriminate.
+Qed.
+
+Lemma sel_protected_among_all srt l c : sort_spec srt ->
+  (count_if (fun x => c_netgroup c <=? c_netgroup x) l <= 4 \/
+   count_if (fun x => c_min_ping x <=? c_min_ping c) l <= 8 \/
+   count_if (fun x => c_last_tx c <=? c_last_tx x) l <= 4 \/
+   count_if (fun x => c_last_block c <=? c_last_block x) l <= 4) ->
+  select_node_to_evict srt l <> Ok (Some c).
+Proof.
+  intros Hs Hp. apply sel_protected_by_rule; [exact Hs|].
+  destruct Hp as [Hp|[Hp|[Hp|Hp]]].
+  - left. apply top_netgroup_surely. unfold top_netgroup. now apply Z.leb_le.
+  - right; left. apply top_ping_surely. unfold top_ping. now apply Z.leb_le.
+  - right; right; left. apply top_tx_surely. unfold top_tx. now apply Z.leb_le.
+  - right; right; right. apply top_block_surely. unfold top_block. now apply Z.leb_le.
+Qed.
+
+Lemma sel_protected_block_relay_only srt l c : sort_spec srt ->
+  c_relay_txs c = false -> c_relevant c = true ->
+  surely_last_k cmp_block_relay_only_time 8 c (filter eligible l) = true ->
+  select_node_to_evict srt l <> Ok (Some c).
+Proof.
+  intros Hs Hr Hv Hp H. destruct (select_some _ (erase_last_k_spec srt Hs) l c H) as (_ & _ & _ & Hb & _).
+  unfold protected_block_relay_only, pred_block_relay_only in Hb. rewrite Hr, Hv, Hp in Hb. discriminate.
+Qed.
+
+Lemma sel_ratio_protection srt l : sort_spec srt ->
+  exists cands num,
+    protect_by_ratio (erase_last_k srt) l =
+      Ok (erase_last_k srt cmp_rev_connected (zlen l / 2 - num) pred_all cands) /\
+    subp (fun c => disadvantaged c = true) cands l /\ num = zlen l - zlen cands /\
+    0 <= num <= zlen l / 2 / 2 /\
+    zlen (erase_last_k srt cmp_rev_connected (zlen l / 2 - num) pred_all cands) = zlen l - zlen l / 2.
+Proof. intros Hs. exact (protect_by_ratio_ok _ (erase_last_k_spec srt Hs) l). Qed.
+
+Lemma sel_ratio_longest srt l c rem : sort_spec srt ->
+  protect_by_ratio (erase_last_k srt) l = Ok rem ->
+  surely_last_k cmp_rev_connected (zlen l / 2 - zlen l / 2 / 2) c l = true -> ~ In c rem.
+Proof. intros Hs. exact (ratio_protects_longest_connected _ (erase_last_k_spec srt Hs) l c rem). Qed.
+
+Lemma sel_none_iff srt l : sort_spec srt ->
+  (select_node_to_evict srt l = Ok None <-> protect_fixed (erase_last_k srt) l = []) /\
+  (count_if eligible l <= 20 -> select_node_to_evict srt l = Ok None) /\
+  (29 <= count_if eligible l -> exists c, select_node_to_evict srt l = Ok (Some c)).
+Proof.
+  intros Hs. pose proof (erase_last_k_spec srt Hs) as He. split; [|split].
+  - exact (select_none_iff _ He l).
+  - exact (select_few _ He l).
+  - exact (select_many _ He l).
+Qed.
+
+Lemma sel_pick srt l c : sort_spec srt ->
+  select_node_to_evict srt l = Ok (Some c) ->
+  exists rem, protect_all (erase_last_k srt) l = Ok rem /\
+    let rem' := prefer_filtered rem in
+    In c rem' /\
+    (existsb c_prefer_evict rem = true -> c_prefer_evict c = true) /\
+    forall x, In x rem' ->
+      group_size rem' x < group_size rem' c \/
+      (group_size rem' x = group_size rem' c /\ c_connected x <= c_connected c).
+Proof. intros Hs. exact (select_pick _ (erase_last_k_spec srt Hs) l c). Qed.
+
+Lemma sel_holds_sound srt l r : sort_spec srt -> ids_unique l = true ->
+  select_node_to_evict srt l = Ok r -> holds_C59 l (option_map c_id r) = true.
+Proof. intros Hs. exact (holds_sound _ (erase_last_k_spec srt Hs) l r). Qed.
+
+Lemma comparators_swo :
+  swo cmp_netgroup /\ swo cmp_rev_min_ping /\ swo cmp_tx_time /\ swo cmp_block_relay_only_time /\ swo cmp_block_time /\
+  swo cmp_rev_connected /\ forall is_local network, swo (cmp_network_time is_local network).
+Proof.
+  split; [exact swo_netgroup|]. split; [exact swo_rev_min_ping|]. split; [exact swo_tx_time|].
+  split; [exact swo_block_relay_only_time|]. split; [exact swo_block_time|]. split; [exact swo_rev_connected|].
+  exact swo_network_time.
+Qed.
